@@ -228,6 +228,24 @@ pub fn covered_lines(orc: &Oracle, input: &[u8], lines: &[Line]) -> (Vec<bool>, 
     (covered, nmatches, ambiguous)
 }
 
+/// The successive leftmost matches over the whole input (same iteration as
+/// `covered_lines`).
+pub fn whole_input_matches(orc: &Oracle, input: &[u8]) -> Vec<(usize, usize)> {
+    let mut out = vec![];
+    let mut pos = 0usize;
+    let len = input.len();
+    while pos < len {
+        match orc.re.search(&Input::new(input).span(pos..len)) {
+            None => break,
+            Some(m) => {
+                out.push((m.start(), m.end()));
+                pos = if m.is_empty() { m.end() + 1 } else { m.end() };
+            }
+        }
+    }
+    out
+}
+
 pub fn gen_legs(rng: &mut Rng) -> Vec<Leg> {
     vec![
         Leg::Slice,
